@@ -23,6 +23,26 @@ static void dump_hashalgs(void) {
 	printf("]}\n");
 }
 
+#include "../harness/tmplinfo.h"
+static void dump_templates(void) {
+	int k; size_t i;
+	printf("{\"templates\":[");
+	for (k = 0; ti_templates[k].name != NULL; k++) {
+		const KSI_TlvTemplate *t = ti_templates[k].t;
+		size_t n = ti_len(t);
+		printf("%s{\"name\":\"%s\",\"entries\":[", k ? "," : "", ti_templates[k].name);
+		for (i = 0; i < n; i++) {
+			const char *sub = t[i].subTemplate != NULL ? ti_template_name(t[i].subTemplate) : "";
+			printf("%s{\"tag\":%u,\"flags\":%d,\"type\":%d,\"multiple\":%d,\"list\":%d,\"kind\":\"%s\",\"getter\":%zu,\"gid\":%zu,\"sub\":\"%s\",\"hasGet\":%d,\"hasSet\":%d}",
+				i ? "," : "", t[i].tag, t[i].flags, t[i].type, t[i].multiple, t[i].listAppend != NULL,
+				ti_kind_name[ti_classify(&t[i])], ti_getter_class(t, i), ti_gid(t[i].getValue), sub == NULL ? "?" : sub,
+				t[i].getValue != NULL, t[i].setValue != NULL);
+		}
+		printf("]}");
+	}
+	printf("]}\n");
+}
+
 #ifdef DUMP_EXTRA
 void dump_extra(const char *what);
 #endif
@@ -31,6 +51,7 @@ int main(int argc, char **argv) {
 	int i;
 	for (i = 1; i < argc; i++) {
 		if (!strcmp(argv[i], "hashalgs")) dump_hashalgs();
+		else if (!strcmp(argv[i], "templates")) dump_templates();
 #ifdef DUMP_EXTRA
 		else dump_extra(argv[i]);
 #endif
